@@ -47,7 +47,7 @@ def date_from_json(s):
 
 @st.composite
 def cases(draw, tier):
-    spec = draw(gen.h5_table_specs(tier, poke=True))
+    spec = draw(gen.h5_table_specs(tier, poke=True, big=True))
     return {"table": spec,
             "compress": draw(st.booleans()),
             "writer": draw(st.sampled_from(["to_hdf5", "save_table",
@@ -168,7 +168,8 @@ def check(case, rec):
                           inplace=True)
             t2.transform(lambda v, i, md: v / 2, inplace=True)
             src2 = observe.snapshot(t2)
-            os.remove(path)
+            if len(src["obs"]) % 2:
+                os.remove(path)       # else: written over the existing file
             write(t2, path, case)
             got2 = observe.snapshot(read(path, case["reader"], grp))
             for k in ("obs", "samp", "rows"):
